@@ -284,6 +284,7 @@ func crashRun(args []string) error {
 		}
 		// real crashes: kill at the entry of every call from the first of the store to the end marker
 		crash := func(n int, torn int, data []byte, target string) {
+			ev0torn := false
 			dir := filepath.Join(base, fmt.Sprintf("c-%d-%d-%d", sid, n, torn))
 			prep(dir)
 			// strace counts invocations per system call name: kill at the k-th call of this name on the main tracee
@@ -299,9 +300,25 @@ func crashRun(args []string) error {
 				// the write had been cut after torn bytes: complete the state by hand
 				tgt := strings.Replace(target, dry, dir, 1)
 				f, err := os.OpenFile(tgt, os.O_WRONLY|os.O_APPEND, 0)
+				if err != nil {
+					// a temporary file has another random name in this run than in the recorded one: it is the (only, still
+					// empty) file with the same stem
+					if i := strings.LastIndex(tgt, ".tmp-"); i > 0 {
+						if ms, _ := filepath.Glob(tgt[:i] + ".tmp-*"); len(ms) > 0 {
+							sort.Strings(ms)
+							for _, m := range ms {
+								if st, e2 := os.Stat(m); e2 == nil && st.Size() == 0 {
+									f, err = os.OpenFile(m, os.O_WRONLY|os.O_APPEND, 0)
+									break
+								}
+							}
+						}
+					}
+				}
 				if err == nil {
 					f.Write(data[:torn])
 					f.Close()
+					ev0torn = true
 				}
 			}
 			listing := []string{}
@@ -310,7 +327,7 @@ func crashRun(args []string) error {
 			}
 			sort.Strings(listing)
 			ev := map[string]any{"op": "Crash", "sid": sid, "scenario": scenarioFull, "point": n, "torn": torn, "call": calls[n-1].name,
-				"nfiles": len(listing), "overwrite": scenario == "overwrite", "hasother": scenario != "first-absent-dir"}
+				"nfiles": len(listing), "overwrite": scenario == "overwrite", "hasother": scenario != "first-absent-dir", "tornapplied": ev0torn}
 			ev["id_res"], ev["id_doc"] = retrieveChild(self, dir, id)
 			ev["other_res"], ev["other_doc"] = retrieveChild(self, dir, other)
 			// recovery: after the crash a complete store of another (shorter) document must simply work
